@@ -27,6 +27,9 @@ class XMLDocParser:
         except FileNotFoundError:
             print(f"Warning: XML file '{xml_file}' not found.")
             return None
+        except OSError as error:
+            print(f"Warning: Failed to read XML file '{xml_file}': {error}")
+            return None
         except ET.ParseError:
             print(f"Warning: Failed to parse XML file '{xml_file}'.")
             return None
